@@ -159,6 +159,9 @@ namespace sqf::runtime
             case behavior::result::exchange:
                 m_instruction_set = m_error_behavior->get_instruction_set(*this);
                 seek(0, ::sqf::runtime::frame::seekpos::start);
+                // The handler code now running in this frame must not be its own handler:
+                // an error or throw inside it belongs to the next enclosing handler
+                m_error_behavior = {};
 #ifdef DF__SQF_RUNTIME__ASSEMBLY_DEBUG_ON_EXECUTE
 
                 std::cout << "\x1B[33m[ASSEMBLY ASSERT]\033[0m" <<
